@@ -356,5 +356,9 @@ func (e *Engine) selectOp(fr *Frame, st *State, in *ssa.Select) stepResult {
 		fr.ip++
 		return stepResult{kind: stepNext}
 	}
+	if _, ok := st.ghost["vp.parkreturns"]; ok {
+		// the goroutine parks here for good: unwind to vpGo
+		panic(parkReq{})
+	}
 	panic(pathEnd{"select blocks (no scheduler)"})
 }
